@@ -24,6 +24,8 @@ type variant struct {
 	Rule string // for kill variants: rule id expected in the report
 	// Second optional substitution in another (or the same) file
 	File2, Old2, New2 string
+	// Patch: instead of substitutions, a unified diff (a stored seed) applied to copies of the files it names
+	Patch string
 }
 
 var variants = map[string][]variant{}
@@ -40,7 +42,8 @@ type variantResult struct {
 var lastSelfTest []variantResult
 
 func runSelfTest(prop, repo, verif string) int {
-	vs := variants[prop]
+	vs := append([]variant{}, variants[prop]...)
+	vs = append(vs, seedVariants(prop, verif)...)
 	if len(vs) == 0 {
 		fmt.Printf("%s self-validation: no variants registered\n", prop)
 		return 0
@@ -97,6 +100,15 @@ func runVariant(self, prop, repo, verif string, v variant) variantResult {
 		res.Expected = "reported"
 	}
 	ov := map[string]string{}
+	if v.Patch != "" {
+		pov, why := overlayFromPatch(repo, v.Patch)
+		if pov == nil {
+			res.Outcome = "skipped(" + why + ")"
+			res.OK = true
+			return res
+		}
+		return runOverlay(self, prop, repo, verif, v, res, pov)
+	}
 	abs := filepath.Join(repo, v.File)
 	b, err := os.ReadFile(abs)
 	if err != nil {
@@ -131,6 +143,82 @@ func runVariant(self, prop, repo, verif string, v variant) variantResult {
 		}
 		ov[abs2] = ns2
 	}
+	return runOverlay(self, prop, repo, verif, v, res, ov)
+}
+
+// seedVariants: every stored seeded change of the property (a change confirmed to break the property
+// while compiling and passing the suite) is a kill variant: the check must report it.
+func seedVariants(prop, verif string) []variant {
+	var out []variant
+	dirs, _ := filepath.Glob(filepath.Join(verif, "seeded", prop+"-*"))
+	for _, d := range dirs {
+		mb, err := os.ReadFile(filepath.Join(d, "meta.json"))
+		if err != nil {
+			continue
+		}
+		var meta map[string]interface{}
+		if json.Unmarshal(mb, &meta) != nil {
+			continue
+		}
+		if st, ok := meta["status"].(string); ok && strings.HasPrefix(st, "superseded") {
+			continue
+		}
+		pf := filepath.Join(d, "patch.diff")
+		if _, err := os.Stat(pf); err != nil {
+			continue
+		}
+		out = append(out, variant{Name: "stored seed " + filepath.Base(d), Kill: true, Patch: pf})
+	}
+	return out
+}
+
+// overlayFromPatch applies a unified diff to copies of the files it names and returns them as an overlay.
+func overlayFromPatch(repo, patchFile string) (map[string]string, string) {
+	if _, err := exec.LookPath("patch"); err != nil {
+		return nil, "patch(1) not available"
+	}
+	pb, err := os.ReadFile(patchFile)
+	if err != nil {
+		return nil, "patch file unreadable"
+	}
+	var files []string
+	for _, l := range strings.Split(string(pb), "\n") {
+		if strings.HasPrefix(l, "+++ b/") {
+			files = append(files, strings.TrimSpace(strings.TrimPrefix(l, "+++ b/")))
+		}
+	}
+	if len(files) == 0 {
+		return nil, "no files in patch"
+	}
+	tmp, err := os.MkdirTemp("", "verifchk-seed-*")
+	if err != nil {
+		return nil, "no temp dir"
+	}
+	defer os.RemoveAll(tmp)
+	for _, f := range files {
+		b, err := os.ReadFile(filepath.Join(repo, f))
+		if err != nil {
+			return nil, "file absent: " + f
+		}
+		os.MkdirAll(filepath.Dir(filepath.Join(tmp, f)), 0o755)
+		os.WriteFile(filepath.Join(tmp, f), b, 0o644)
+	}
+	cmd := exec.Command("patch", "-p1", "--fuzz=3", "-s", "-N", "-d", tmp, "-i", patchFile)
+	if out, err := cmd.CombinedOutput(); err != nil {
+		return nil, "patch does not apply: " + lastLines(string(out), 1)
+	}
+	ov := map[string]string{}
+	for _, f := range files {
+		b, err := os.ReadFile(filepath.Join(tmp, f))
+		if err != nil {
+			return nil, "patched file unreadable"
+		}
+		ov[filepath.Join(repo, f)] = string(b)
+	}
+	return ov, ""
+}
+
+func runOverlay(self, prop, repo, verif string, v variant, res variantResult, ov map[string]string) variantResult {
 	tmp, _ := os.CreateTemp("", "verifchk-ov-*.json")
 	ob, _ := json.Marshal(ov)
 	tmp.Write(ob)
